@@ -355,16 +355,20 @@ package main
 //@ end
 
 //@ ghost linkPatched bool
+//@ ghost tinyEnvSet bool
 
 //@ hookset linkrun
 //@ hook after mvdan.cc/garble/internal/linker.PatchLinker(a, b, c, d) (p, u, err)
 //@   if err == nil { linkPatched = true }
 //@ hook before (*os/exec.Cmd).Run(cmd)
 //@   assert("patched-linker-runs-while-its-lock-is-held", !linkPatched || lockHeld)
+//@   assert("tiny-is-forwarded-to-the-patched-linker", !linkPatched || !flagTiny || tinyEnvSet)
+//@ hook after os.Setenv(k, v) (err)
+//@   if k == "GARBLE_LINK_TINY" && v == "true" { tinyEnvSet = true }
 //@ end
 
 //@ func mainErr
-//@   property C19 C17
+//@   property C19 C17 C10
 //@   hooks fs linkrun linker
 //@   maxpaths 4000
 //@   requires !lockHeld && !everLocked && unlocks == 0 && !built && !stamped && !linkPatched && !anySelected
@@ -498,4 +502,13 @@ package main
 //@ func (*sharedCacheType).MarshalMsg
 //@   trusted generated msgp encoder: appends to the buffer it is given, does not modify the value
 //@   assigns nothing
+//@ end
+
+// ---- C10: -tiny ----
+
+//@ func stripRuntime#stripPrints
+//@   property C10
+//@   skip safety call-requires
+//@   ensures @print-builtins-are-redirected: old(dyntypeis(node, *ast.CallExpr) && dyntypeis(node.(*ast.CallExpr).Fun, *ast.Ident) && (node.(*ast.CallExpr).Fun.(*ast.Ident).Name == "print" || node.(*ast.CallExpr).Fun.(*ast.Ident).Name == "println")) ==> node.(*ast.CallExpr).Fun.(*ast.Ident).Name == "hidePrint"
+//@   ensures @other-calls-are-kept: old(dyntypeis(node, *ast.CallExpr) && dyntypeis(node.(*ast.CallExpr).Fun, *ast.Ident) && node.(*ast.CallExpr).Fun.(*ast.Ident).Name != "print" && node.(*ast.CallExpr).Fun.(*ast.Ident).Name != "println") ==> node.(*ast.CallExpr).Fun.(*ast.Ident).Name == old(node.(*ast.CallExpr).Fun.(*ast.Ident).Name)
 //@ end
